@@ -381,6 +381,9 @@ pub fn test_tool(case: &TrainCase) -> TestResult {
     }
     args.push("--model".into());
     args.push(fmodel.to_string_lossy().to_string());
+    if args.len() % 2 == 0 {
+        util::prefill(&fmodel, args.len());
+    }
     let r = util::run_tool("train", &args, b"")?;
     ensure!(!r.stderr.contains("panicked"), "train crashed: {}", r.stderr.lines().find(|l| l.contains("panicked")).unwrap_or(""));
     if r.code != Some(0) {
